@@ -61,6 +61,8 @@ def tree_info():
 
 
 def _prune():
+    """bound the cache: drop the least recently used entries beyond CACHE_MAX_ENTRIES, but never one that
+    was built or used within the last two hours (another check may be running from it, or still building it)"""
     try:
         ents = [os.path.join(CACHE, e) for e in os.listdir(CACHE)]
     except OSError:
@@ -68,8 +70,15 @@ def _prune():
     ents = [e for e in ents if os.path.isdir(e)]
     if len(ents) <= CACHE_MAX_ENTRIES:
         return
-    ents.sort(key=lambda e: os.path.getmtime(e))
-    for e in ents[:len(ents) - CACHE_MAX_ENTRIES]:
+    now = time.time()
+
+    def age(e):
+        try:
+            return now - os.path.getmtime(e)
+        except OSError:
+            return 0
+    old = sorted((e for e in ents if age(e) > 7200), key=age, reverse=True)
+    for e in old[:len(ents) - CACHE_MAX_ENTRIES]:
         shutil.rmtree(e, ignore_errors=True)
 
 
